@@ -24,8 +24,17 @@ class HarnessAbort(BaseException):
     """A user exception that derives directly from BaseException (legal for Event.fail and for process bodies)."""
 
 
+class PacketError(Exception):
+    """An application exception with a constructor of its own (as json.JSONDecodeError or most library exceptions have):
+    it cannot be rebuilt as type(e)(*e.args)."""
+
+    def __init__(self, pkt, reason):
+        super().__init__('packet %r: %s' % (pkt, reason))
+        self.pkt, self.reason = pkt, reason
+
+
 EXC = {'HarnessAbort': HarnessAbort, 'ValueError': ValueError, 'KeyError': KeyError, 'RuntimeError': RuntimeError,
-       'ZeroDivisionError': ZeroDivisionError, 'IndexError': IndexError, 'OSError': OSError}
+       'ZeroDivisionError': ZeroDivisionError, 'IndexError': IndexError, 'OSError': OSError, 'PacketError': PacketError}
 
 GRID = [0, 0, 0.25, 0.5, 0.5, 1, 1, 1, 1.5, 2, 2, 3]
 INTS = [0, 0, 1, 1, 1, 2, 2, 3, 5]
@@ -37,6 +46,8 @@ HANDLERS = ['none', 'cont', 'rewait', 'ret', 'raise', 'other']
 
 
 def mkexc(spec):
+    if spec[0] == 'PacketError':
+        return PacketError(spec[1][0] if spec[1] else 0, 'lost')
     return EXC.get(spec[0], ValueError)(*spec[1])
 
 
